@@ -56,6 +56,7 @@ public:
         p.cfg["rate"] = r.pick<int>({ 8000, 22050, 44100 });
         p.cfg["mult"] = r.chance(0.7) ? 2 : (int64_t)r.below(5);
         p.cfg["cont"] = r.chance(0.75) ? 0 : 1; // continuation: 0 tick twin, 1 audio window
+        p.cfg["devices"] = (int64_t)r.chance(0.25);   // tracks bound to MIDI devices (meta FF 09): more than 16 MIDI channels
         int nprior = (int)r.weighted({ 4, 3, 2, 1 });
         for(int i = 0; i < nprior; ++i)
         {
@@ -79,6 +80,7 @@ public:
         Rng sr(mix64((uint64_t)p.get("songseed"), 0xC08));
         SongOpts so; so.maxTracks = (int)p.get("maxtracks", 2); so.maxEventsPerTrack = (int)p.get("maxev", 30); so.controllerRich = true; so.maxSeconds = 6.0; so.eotVariants = false;
         Song song = genSong(sr, so);
+        if(p.get("devices", 0)) { addDeviceMetas(song, sr); run.count("multi_device_song"); }
         for(size_t tk = 0; tk < song.tracks.size(); ++tk) { STrack &t = song.tracks[tk]; t.hasEOT = true; t.trailing.clear(); t.eotTick = (t.ev.empty() ? 0 : t.ev.back().tick) + (uint32_t)sr.range(0, song.division); }
         RefSong ref; ref.build(song);
         std::vector<uint8_t> smf = writeSmf(song, sr.chance(0.5));
@@ -160,11 +162,37 @@ public:
             size_t soundingA = 0; for(size_t mc = 0; mc < pa->m_midiChannels.size(); ++mc) soundingA += pa->m_midiChannels[mc].activenotes.size();
             if(soundingA) run.count("notes_sounding_at_target");
         }
-        // controller state equality
-        for(int ch = 0; ch < 16 && !run.failed(); ++ch)
+        // controller state equality, on every MIDI channel the player has (16 per device)
+        if(!run.failed() && pa->m_midiChannels.size() != pb->m_midiChannels.size()) run.fail("controller-state-after-seek", "class" + std::to_string(tclass), "the twins have " + std::to_string(pa->m_midiChannels.size()) + " and " + std::to_string(pb->m_midiChannels.size()) + " MIDI channels");
+        for(size_t ch = 0; ch < pb->m_midiChannels.size() && !run.failed(); ++ch)
         {
-            std::string d = diffFields(fieldsOf(pa, ch), fieldsOf(pb, ch));
+            std::string d = diffFields(fieldsOf(pa, (int)ch), fieldsOf(pb, (int)ch));
             if(!d.empty()) run.fail("controller-state-after-seek", "class" + std::to_string(tclass), "MIDI channel " + std::to_string(ch) + " linear-play vs seek: " + d);
+        }
+        // ... and against an instance without any prior history that plays from the start to t: what the song start resets
+        // (everything in the property's list; programs and banks are compared under their own tag) must not depend on what
+        // the seeking instance had played before
+        if(!run.failed() && tclass == 0)
+        {
+            OPN2_MIDIPlayer *fresh = opn2_init(rate);
+            opn2_openBankData(fresh, bank.data(), (long)bank.size()); opn2_switchEmulator(fresh, OPNMIDI_VGM_DUMPER); opn2_setLoopEnabled(fresh, 0);
+            if(opn2_openData(fresh, smf.data(), (unsigned long)smf.size()) == 0)
+            {
+                opn2_setTempo(fresh, mult);
+                double left = t / mult; Rng rr(mix64(p.seed, 0xA11));
+                while(left > 1e-12) { double s = rr.chance(0.3) ? left : std::min(left, rr.real(0.0, 0.7)); opn2_tickEvents(fresh, s, g); left -= s; }
+                OPNMIDIplay *pf = Acc::P(fresh);
+                for(size_t ch = 0; ch < pb->m_midiChannels.size() && !run.failed(); ++ch)
+                {
+                    ChanFields fb = fieldsOf(pb, (int)ch), ff; if(ch < pf->m_midiChannels.size()) ff = fieldsOf(pf, (int)ch); else continue;   // (a device the fresh run has not reached yet)
+                    ChanFields fb2 = fb, ff2 = ff; fb2.patch = ff2.patch = 0; fb2.msb = ff2.msb = 0; fb2.lsb = ff2.lsb = 0;
+                    std::string d = diffFields(ff2, fb2);
+                    if(!d.empty()) { run.fail("state-after-seek-depends-on-prior-history", "controllers", "MIDI channel " + std::to_string(ch) + ": a fresh instance played to t vs the instance that sought there: " + d); break; }
+                    if(fb.patch != ff.patch || fb.msb != ff.msb || fb.lsb != ff.lsb) { run.fail("state-after-seek-depends-on-prior-history", "program-or-bank", "MIDI channel " + std::to_string(ch) + ": program/bank " + std::to_string(ff.patch) + "/" + std::to_string(ff.msb) + ":" + std::to_string(ff.lsb) + " after playing from the start to t on a fresh instance, " + std::to_string(fb.patch) + "/" + std::to_string(fb.msb) + ":" + std::to_string(fb.lsb) + " after seeking there (kept from later in the song)"); break; }
+                }
+                run.count("fresh_instance_compared");
+            }
+            opn2_close(fresh);
         }
         // continuation
         const int cont = (int)p.get("cont", 0);
